@@ -143,7 +143,15 @@ func oneRun(c *core.Ctx, r *core.Result, idx int, rng *rand.Rand) {
 	port := 0
 	for try := 0; try < 3; try++ {
 		port = live.FreePort()
-		eng, err = live.StartAcceptor(live.Options{Who: "engine", Begin: cf.Begin, Sender: "E" + tag, Target: "P" + tag, Port: port, StoreKind: cf.Store, StoreDir: dir, Extra: extra, R: rec})
+		eng, err = live.StartAcceptor(live.Options{Who: "engine", Begin: cf.Begin, Sender: "E" + tag, Target: "P" + tag, Port: port, StoreKind: cf.Store, StoreDir: dir, Extra: extra, R: rec,
+			Delay: func(op string) {
+				// widen the windows around store calls: harmless when the caller holds the exclusion it should
+				if op == "Reset" {
+					time.Sleep(3 * time.Millisecond)
+				} else if atomic.AddUint64(&yieldCtr, 1)%17 == 0 {
+					runtime.Gosched()
+				}
+			}})
 		if err == nil {
 			break
 		}
@@ -308,12 +316,22 @@ func oneRun(c *core.Ctx, r *core.Result, idx int, rng *rand.Rand) {
 	}
 	epochs := [][]save{nil}
 	var resetTickets []int64
+	var resetEnter int64
 	for _, e := range evs {
 		if e.Kind != "store" {
 			continue
 		}
 		switch e.StoreOp {
+		case "ResetEnter":
+			resetEnter = int64(e.Step)
 		case "Reset":
+			// nothing may be persisted while a reset is in progress: the message would be wiped although it is (or will be) transmitted
+			for _, sv := range epochs[len(epochs)-1] {
+				if sv.ticket > resetEnter {
+					fail("persisted-during-reset", "message %d was persisted while the store was being reset (save ticket %d between reset entry %d and completion %d): the bytes sent under it are no longer retrievable", sv.n, sv.ticket, resetEnter, e.Step)
+					return
+				}
+			}
 			resetTickets = append(resetTickets, int64(e.Step))
 			epochs = append(epochs, nil)
 		case "SaveIncr", "IncrSender":
